@@ -37,6 +37,14 @@ class Lib:
         return 'Lib({})'.format(self.name)
 
 
+class PyCallable:
+    """A callable supplied by a theory (contract of an opaque function)."""
+
+    def __init__(self, fn, name='callable'):
+        self.fn = fn
+        self.name = name
+
+
 class Closure:
     def __init__(self, node, env):
         self.node = node
